@@ -124,6 +124,7 @@ let parse_op (o : string) (impl_step : string) : zop =
   | "bins" -> ZBinS (z_of_int (bin_code f.(1)), nat 2, zi 3, f.(4) = "left", parse_mode f.(5))
   | "cmp" -> ZCmp (z_of_int (cmp_code f.(1)), nat 2, nat 3, f.(4) = "same", parse_cmode f.(5), not (meth 6))
   | "cmps" -> ZCmpS (z_of_int (cmp_code f.(1)), nat 2, zi 3, f.(4) = "left", f.(5) = "same", parse_cmode f.(6))
+  | "copyto" -> ZCopyTo (nat 1, nat 2)
   | "un" -> ZUn (z_of_int (un_code f.(1)), nat 2, parse_mode f.(3))
   | "apply" -> ZApply (z_of_int (un_code f.(1)), nat 2, parse_mode f.(3))
   | "reduce" ->
@@ -266,7 +267,7 @@ let operand_ids (o : string) : int list =
   let f = fields o in
   match f.(0) with
   | "new" -> []
-  | "copy" -> [int_of_string f.(1); int_of_string f.(2)]
+  | "copy" | "copyto" -> [int_of_string f.(1); int_of_string f.(2)]
   | "bin" | "cmp" -> [int_of_string f.(2); int_of_string f.(3)]
   | "fma" -> [int_of_string f.(1); int_of_string f.(2); int_of_string f.(3)]
   | "fmas" -> [int_of_string f.(1); int_of_string f.(3)]
